@@ -62,6 +62,7 @@ let rec rval_of = function
   | L (A "p" :: w :: xs) -> RPrim (zx w, List.map zx xs)
   | L [A "b"; d] -> RPrim (z_of_int 8, bx d)
   | L (A "l" :: ps) -> RPtrs (List.map rval_of ps)
+  | L (A "C" :: es) -> RComp (List.map rval_of es)
   | _ -> failwith "rval"
 
 let field_of = function
@@ -171,6 +172,14 @@ let () =
   (* hostile messages: the property (C01/C02 for the renderer) is that the implementation returns,
      text or error, without panic or hang and within the output bound; theorem render_total says
      the model never panics or runs out of fuel *)
+  (* standalone String() of a typed list: the model's shown_list for the element type *)
+  | "liststr" :: kind :: rv :: implout :: _ ->
+    let l = rval_of (parse_sx rv) in
+    let ty = ty_of (parse_sx kind) in
+    let r = (match shown_list (float_table "-") !cfg !the_schema fuel [] ty l None with
+      | Ok (t, _) -> Ok (print t) | Err e -> Err e | OutOfFuel -> OutOfFuel) in
+    let back = match parse_text (bytes_of_hex implout) with Some t -> canon t | None -> "unparsable" in
+    print_endline (show_res r ^ " " ^ back)
   | "schemadef" :: key :: sx :: _ ->
     Hashtbl.replace schema_defs key (schema_of (parse_sx sx));
     print_endline ("ok " ^ key)
@@ -188,6 +197,12 @@ let () =
         let v = rval_of (parse_sx rv) in
         let (r, st') = encode_e ff !cfg fuel (z_of_hex id) v !st in
         let (rf, _) = encode ff !cfg !st.es_reg fuel (z_of_hex id) v None in
+        st := st';
+        obs := ("used=" ^ show r ^ ",fresh=" ^ show rf) :: !obs
+      | ["l"; id; rv] ->
+        let v = rval_of (parse_sx rv) in
+        let (r, st') = encode_list_e ff !cfg fuel (z_of_hex id) v !st in
+        let (rf, _) = encode_list ff !cfg !st.es_reg fuel (z_of_hex id) v None in
         st := st';
         obs := ("used=" ^ show r ^ ",fresh=" ^ show rf) :: !obs
       | _ -> failwith "reghist op") (String.split_on_char ';' script);
